@@ -603,7 +603,7 @@ func c14E5(c *Ctx, w *World) {
 	c.sawFunc(fname(kf))
 	remaining := w.Field("rlp", "Stream", "remaining")
 	enforces := false
-	for _, fn := range []*ssa.Function{kf, w.Fn("rlp", "Stream", "readKind")} {
+	for _, fn := range append(withSmallHelpers(kf), w.Fn("rlp", "Stream", "readKind")) {
 		for _, b := range fn.Blocks {
 			for _, in := range b.Instrs {
 				if bo, ok := in.(*ssa.BinOp); ok {
